@@ -41,7 +41,11 @@ class TtlMode(vlib.Mode):
                     case.append(f"submit {hx(rng.choice(BIDS))} {rng.randrange(1000)}"); issued += 1
                 elif r < 0.55:
                     k = rng.randrange(issued) if rng.random() < 0.9 else issued + rng.randrange(3)
-                    case.append(f"exchange c{k}" if rng.random() < 0.95 else "exchange x")
+                    if k < issued and rng.random() < 0.12:
+                        case.append(f"exchange {rng.choice('Cubn')}{k}")     # another spelling of the issued uuid: must be refused, must not consume or keep alive anything
+                        case.append(f"exchange c{k}")
+                    else:
+                        case.append(f"exchange c{k}" if rng.random() < 0.95 else "exchange x")
                 elif r < 0.63: case.append("clean")
                 elif r < 0.72: case.append(f"delbid {hx(rng.choice(BIDS))}")
                 elif r < 0.88:
@@ -69,6 +73,9 @@ class TtlMode(vlib.Mode):
             elif f[0] == "delbid":
                 for c in codes:
                     if c["bid"] == f[1]: c["purged"] = True
+            elif f[0] == "exchange" and f[1][0] in "Cubn":
+                if o.startswith("token "):
+                    fails.append(("respelled-code-admitted", f"{l} -> {o}: a string that is not the issued code was exchanged")); break
             elif f[0] in ("exchange", "race"):
                 k = int(f[1][1:]) if f[1] != "x" else -1
                 c = codes[k] if 0 <= k < len(codes) else None
